@@ -70,7 +70,7 @@ func runC14Stateless(w *bufio.Writer, seed uint64, n int, _ []string) {
 	})
 	for _, k := range []string{"cases", "nontrivial", "reply:none", "reply:vn", "reply:retry", "reply:invalid-token", "reply:refused", "reply:reset", "accepted", "routed",
 		"form:empty", "form:nonquic", "form:short", "form:long-v0", "form:long-unsupported", "form:long-0rtt", "form:long-handshake", "form:long-retry", "form:long-initial",
-		"size:<1200", "size:1199", "size:1200", "size:>1200", "reset-boundary"} {
+		"size:<1200", "size:1199", "size:1200", "size:>1200", "reset-boundary", "coalesced-or-padded"} {
 		fmt.Fprintf(w, "DIST\t%s\t%d\n", k, dist[k])
 	}
 }
@@ -125,6 +125,7 @@ func c14StatelessCase(w *bufio.Writer, r *u.Rng, idx int, dist map[string]int) {
 	var token, dcid []byte
 	retryTokLen := 0
 	formName := ""
+	coalesced := ""
 	switch cat := r.Intn(12); {
 	case cat == 0:
 		if r.Chance(1, 3) {
@@ -199,12 +200,35 @@ func c14StatelessCase(w *bufio.Writer, r *u.Rng, idx int, dist map[string]int) {
 			case 4:
 				token = r.Bytes(r.Range(1, 60))
 			}
-			data = quic.VerifC14Initial(protocol.Version(version), dcid, scid, token, size)
+			// coalesced / padded datagrams: the decisions read the DATAGRAM's size and the FIRST packet's header
+			firstLen, tail := size, ""
+			if size >= 300 && r.Chance(1, 3) {
+				firstLen = r.Range(120+len(token), size-40)
+				tail = []string{"zeros", "junk-initial", "garbage"}[r.Intn(3)]
+			}
+			data = quic.VerifC14Initial(protocol.Version(version), dcid, scid, token, firstLen)
+			firstEnd := len(data)
+			if data != nil && tail != "" {
+				rest := size - len(data)
+				switch tail {
+				case "zeros":
+					data = append(data, make([]byte, rest)...)
+				case "junk-initial":
+					data = append(data, c14RawLong(r, tb, version, dcid, scid, nil, true, rest)...)
+				default:
+					data = append(data, r.Bytes(rest)...)
+				}
+				coalesced = tail
+			}
 			if data != nil {
 				parseOK, decryptable = true, true
-				switch r.Intn(8) {
-				case 0: // corrupt the protected payload
-					data[len(data)-1] ^= 1
+				sel := r.Intn(8)
+				if sel == 1 && tail != "" {
+					sel = 0
+				}
+				switch sel {
+				case 0: // corrupt the protected payload of the (first) Initial packet
+					data[firstEnd-1] ^= 1
 					decryptable = false
 				case 1: // truncate: Length now exceeds the datagram
 					cut := r.Range(1, 30)
@@ -219,8 +243,20 @@ func c14StatelessCase(w *bufio.Writer, r *u.Rng, idx int, dist map[string]int) {
 			t, _ := g.NewRetryToken(from, protocol.ParseConnectionID(dcid), protocol.ParseConnectionID(r.Bytes(o.ConnIDLen)))
 			retryTokLen = len(t)
 		} else {
-			data = c14RawLong(r, tb, version, dcid, scid, nil, typ == 0 && verClass == 1, size)
-			parseOK = typ != 3 && len(data) >= 7+dl+sl+2
+			firstLen := size
+			if size >= 300 && r.Chance(1, 3) { // a first packet followed by padding / another packet
+				firstLen = r.Range(60+dl+sl, size-40)
+				coalesced = "tail"
+			}
+			data = c14RawLong(r, tb, version, dcid, scid, nil, typ == 0 && verClass == 1, firstLen)
+			if firstLen < size {
+				if r.Bool() {
+					data = append(data, make([]byte, size-len(data))...)
+				} else {
+					data = append(data, c14RawLong(r, tb, version, dcid, scid, nil, typ == 0 && verClass == 1, size-len(data))...)
+				}
+			}
+			parseOK = typ != 3 && firstLen >= 7+dl+sl+2
 		}
 		form = u.App("FLong", u.App("LH", u.Z(int64(verClass)), u.Z(int64(typ)), u.Z(int64(dl)), u.Z(int64(sl)), u.B(parseOK)))
 		switch {
@@ -234,6 +270,10 @@ func c14StatelessCase(w *bufio.Writer, r *u.Rng, idx int, dist map[string]int) {
 	}
 	n := len(data)
 	dist["form:"+formName]++
+	if coalesced != "" {
+		dist["coalesced-or-padded"]++
+		formName += "+" + coalesced
+	}
 	switch {
 	case n == 1199:
 		dist["size:1199"]++
